@@ -10,7 +10,7 @@ PROP = "C11"
 META = {
     "technique": "Coq proof: inductive invariants over all schedules of the readMore wake-up protocol (reader / event loop / peer close / local close / session close / deadline timer with an abstract clock), stability of an enabled wake-up, Flush's retry bound as a total function over every queue behaviour, AcceptStream/initProtocol state machines; tie: timed scenarios on real session pairs, outcome set computed from the model by exhaustive interleaving",
     "level_text": "PARTIAL. Proved for every schedule: C11_no_lost_notify, C11_wake_or_helper (a parked reader whose releasing event happened has a ready select branch or the thread that readies it is at that step), C11_wake_stable (a ready branch stays ready until taken), C11_timeout_not_early, C11_timer_sound (no stale timer value), C11_enough, C11_flush_bounded (<= c_flushRetryBound rounds whatever the queue does), C11_session_waiters. Observed on the real code (not proved): every scenario's call returned within 4 s of its releasing event with the right error class and no timeout was early.",
-    "level_note": "Outside the model (Go runtime / kernel): that an enabled goroutine is scheduled, timer accuracy, epoll delivery to the single dispatcher goroutine. One full statement is REFUTED on the faithful model and reproduced on the real code: C11_wakeup_never_blocks (the unbounded `s.sendCh <- ...` of wakeUpPeer/hotRestart blocks Flush for ever once sendCh is full behind a peer that stopped consuming; partial: blocks only then, C11_stuck_until_peer_resumes) (C11_close_releases - a read parked inside OnData is released by a Stream.Close that was deferred because a callback is in progress - was refuted before the repair of stream.go Close and is now proved; regression scenarios ondata-deferred-close-*). ASSUMPTIONS: user callbacks (OnShutdown, OnNewStream) return; one reader per stream, deadlines set by the reading goroutine between calls.",
+    "level_note": "Outside the model (Go runtime / kernel): that an enabled goroutine is scheduled, timer accuracy, epoll delivery to the single dispatcher goroutine. One full statement is REFUTED on the faithful model and reproduced on the real code: C11_wakeup_never_blocks (the unbounded `s.sendCh <- ...` of wakeUpPeer/hotRestart blocks Flush for ever once sendCh is full behind a peer that stopped consuming; partial: blocks only then, C11_stuck_until_peer_resumes) (C11_close_releases - a read parked inside OnData is released by a Stream.Close that was deferred because a callback is in progress - was refuted before the repair of stream.go Close and is now proved; regression scenarios ondata-deferred-close-*; the stream state machine has the four states of the source: opened / closed / halfClosed by the peer / localHalfClosed by a deferred Close, with readMore's error-class rule). ASSUMPTIONS: user callbacks (OnShutdown, OnNewStream) return; one reader per stream, deadlines set by the reading goroutine between calls.",
 }
 
 # scenario kind -> (prefix events, helper events) in terms of Model/Wait.v; %d = size / deadline
